@@ -416,7 +416,7 @@ func vfC16Segments(seedCase *vfSerCase, ctx *vfCtx) *vfViolation {
 		return vfFail("Open: %v", err)
 	}
 	segDocs := make([]map[uint32]*vfStoreDoc, 3)
-	everAdded := map[uint32]bool{1<<30 + 900000: true}
+	everAdded := map[uint32]bool{1<<30 + 1<<21 + 900000: true}
 	n := 0
 	for sidx := 0; sidx < 3; sidx++ {
 		segDocs[sidx] = map[uint32]*vfStoreDoc{}
